@@ -127,7 +127,7 @@ def replay_benign(pid):
     temporary, loop <-> comprehension, guard clauses, if/else <-> conditional expression, ...).  The check must give the same
     verdict on every one of them as on the tree itself: a refactoring that changes no behaviour must not raise an alarm."""
     pats = sorted((VERIF / "benign").glob("*patch*.diff")) + sorted((VERIF / "benign2").glob("*patch*.diff")) \
-        + sorted((VERIF / "benign3").glob("*patch*.diff")) + sorted((VERIF / "benign4").glob("*patch*.diff")) + sorted((VERIF / "benign5").glob("*patch*.diff"))
+        + sorted((VERIF / "benign3").glob("*patch*.diff")) + sorted((VERIF / "benign4").glob("*patch*.diff")) + sorted((VERIF / "benign5").glob("*patch*.diff")) + sorted((VERIF / "benign6").glob("*patch*.diff"))
     if not pats:
         return 0
     base = Path(tempfile.mkdtemp(prefix="sa-benign-"))
